@@ -70,12 +70,15 @@ class C13(Check):
         'Linux flock on the sandbox\'s local filesystem; the Windows branch (msvcrt) is not executable here',
         'crash = SIGKILL of the whole process at a source-line event of aiuti/filelock.py (no partial kernel state '
         'beyond what the kernel itself guarantees)',
-        '"promptly" is judged logically: the first non-blocking attempt after the kill must succeed',
+        '"promptly" is judged logically: the first non-blocking attempt after the kill must succeed; a waiter that was already '
+        'polling must have the lock before it began its 9th pause after the kill',
     ]
     rule = ('cases = (scenario, crash point n) for scenarios {blocking acquire/release, with, acquire_ctx, non-blocking, '
             'reentrant nested x2, nested + forced release, timed acquire against a live holder, finite default timeout, '
             'holder that spawned a subprocess, garbage-collected holder} and EVERY n in 1..K(scenario), with 0 contenders; '
-            'plus chunks of crash points with 1-2 live contender processes; non-trivial = the child was killed while it '
+            'the worker forked by a live parent that had used the same lock object; '
+            'plus chunks of crash points with 1-2 live contender processes, and with one live process that is polling with a 25 s '
+            'timeout (judged by the pauses it began after the kill before it had the lock: at most 8); non-trivial = the child was killed while it '
             'held the kernel lock or had the lock file open (between open and flock / between unlock and close); '
             'distinct = distinct (scenario, n, contenders)')
 
